@@ -26,6 +26,7 @@ type c17Set struct {
 	Tiny     bool     // only the bases and the slow-exchange cases (short upstream timeout)
 	Refresh  bool     // --cookie-refresh=1s: every case logs in on its own, waits past the period and is the refreshing request
 	Prefix   string   // --proxy-prefix ("" = default /oauth2)
+	PingPath, ReadyPath, PingUA string // --ping-path / --ready-path / --ping-user-agent ("" = defaults /ping, /ready, none)
 	Timeout  string   // upstream timeout ("" = default 30s): legacy --upstream-timeout, alpha per-upstream timeout
 	ExtraYML string
 
@@ -143,7 +144,7 @@ func c17Sets(w *vfWorld) []*c17Set {
 	dir := c17WriteFiles(w)
 	nohost := func(u *c17Up) *c17Up { u.PassHost = false; return u }
 	sets := []*c17Set{
-		{Name: "legacy-nested", Legacy: true, PassHost: true,
+		{Name: "legacy-nested", Legacy: true, PassHost: true, PingPath: "/a/healthz", ReadyPath: "/a/b/rdy",
 			Ups:   []*c17Up{c17HTTP("root", "/", "u0"), c17HTTP("a", "/a/", "u1"), c17HTTP("ab", "/a/b/", "u2"), c17HTTP("aba", "/a/b/a/", "u3")},
 			Bases: []string{"/", "/a/", "/a/b/", "/a/b/a/", "/a%2Fb/", "/a/b%2Fa/", "/%61/", "/b/", "/a", "/a/b", "/A/", "/a%2f"}},
 		{Name: "legacy-siblings-exact-noroot", Legacy: true, PassHost: true,
@@ -159,17 +160,17 @@ func c17Sets(w *vfWorld) []*c17Set {
 		{Name: "legacy-exact-with-root", Legacy: true, PassHost: true,
 			Ups:   []*c17Up{c17HTTP("b-exact", "/b", "u3"), c17HTTP("root", "/", "u0"), c17HTTP("a-b-exact", "/a/b", "u4"), c17HTTP("a", "/a/", "u1")},
 			Bases: []string{"/", "/b", "/b/", "/bx", "/a/b", "/a/b/", "/a/bx", "/a/", "/a", "/%62", "/a%2Fb"}},
-		{Name: "legacy-wide", Legacy: true, PassHost: true,
+		{Name: "legacy-wide", Legacy: true, PassHost: true, PingUA: "kube-probe/1.29",
 			Ups: []*c17Up{c17HTTP("aaa", "/a/a/a/", "u7"), c17HTTP("b", "/b/", "u2"), c17HTTP("aa-exact", "/a/a", "u12"), c17HTTP("ab", "/a/b/", "u4"), c17HTTP("root", "/", "u0"), c17HTTP("bb", "/b/b/", "u6"),
 				c17HTTP("abb", "/a/b/b/", "u10"), c17HTTP("a", "/a/", "u1"), c17HTTP("baa", "/b/a/a/", "u11"), c17HTTP("aa", "/a/a/", "u3"), c17HTTP("bbb-exact", "/b/b/b", "u13"), c17HTTP("aab", "/a/a/b/", "u8"),
 				c17HTTP("ba", "/b/a/", "u5"), c17HTTP("aba", "/a/b/a/", "u9")},
 			Bases: []string{"/", "/a/", "/b/", "/a/a/", "/a/b/", "/b/a/", "/b/b/", "/a/a", "/b/b/b", "/b/b/b/", "/a/a/a/", "/b/a/a/"}},
-		{Name: "alpha-rewrite",
+		{Name: "alpha-rewrite", PingPath: "/rw/long/hc", ReadyPath: "/sw/x/rdy", PingUA: "probe/1.0",
 			Ups: []*c17Up{c17HTTP("root", "/", "u0"), c17RW("rw", "^/rw/(.*)$", "/t/$1", "u1"), c17RW("rwlong", "^/rw/long/(.*)$", "/long/$1?added=1&k=v%20w", "u2"), c17HTTP("rw-prefix", "/rw/", "u3"),
 				c17HTTP("deeper", "/rw/long/deeper/x/", "u4"), c17RW("swap", "^/sw/([^/]+)/([^/]+)$", "/$2/$1", "u5"), c17RW("old", "^/old/v[0-9]+/", "/new/", "u6"),
 				c17RW("q", "^/q/([a-z]*)$", "/search?path=$1&fixed=1", "u7"), c17WithURIPath(c17RW("same", "^/same/(.*)$", "/same/$1", "u8"), "/pfx/")},
 			Bases: []string{"/rw/", "/rw/long/", "/rw/long/deeper/x/", "/rw", "/sw/", "/sw/a/", "/old/v1/", "/old/v22/", "/old/vx/", "/q/", "/same/", "/", "/rw%2F", "/rwx/", "/rw%2Flong%2F"}},
-		{Name: "alpha-raw", Raw: true,
+		{Name: "alpha-raw", Raw: true, PingPath: "/a/b/hc", ReadyPath: "/exact-rdy",
 			Ups: []*c17Up{c17HTTP("root", "/", "u0"), nohost(c17HTTP("a", "/a/", "u1")), c17HTTP("ab", "/a/b/", "u2"), c17HTTP("exact", "/exact", "u3"),
 				{ID: "st", Kind: "static", Path: "/st/", StaticCode: 418}, c17WithURIPath(c17HTTP("sib", "/ab/", "u4"), "/x/"), c17HTTP("abc", "/a/b/c/", "u5")},
 			Bases: []string{"/", "/a/", "/a/b/", "/a%2Fb/", "/a%2fb/", "/%61/", "/exact", "/st/", "/a", "/a/%2F/", "/a/%2E/", "/a/%2e%2e/", "/a%2F", "/a%2f", "/a/b%2F", "/a/b%2Fc", "/a/b%2Fc/", "/a/b%2fc%2F",
@@ -241,6 +242,20 @@ func c17YAMLStr(s string) string {
 	return "'" + strings.ReplaceAll(strings.ReplaceAll(s, "'", "''"), "$", "$$") + "'"
 }
 
+func (s *c17Set) healthFlags() []string {
+	var f []string
+	if s.PingPath != "" {
+		f = append(f, "--ping-path="+s.PingPath)
+	}
+	if s.ReadyPath != "" {
+		f = append(f, "--ready-path="+s.ReadyPath)
+	}
+	if s.PingUA != "" {
+		f = append(f, "--ping-user-agent="+s.PingUA)
+	}
+	return f
+}
+
 func (s *c17Set) build(w *vfWorld) error {
 	var err error
 	if s.Legacy {
@@ -254,6 +269,7 @@ func (s *c17Set) build(w *vfWorld) error {
 		if s.Refresh {
 			flags = append(flags, "--cookie-refresh=1s", "--cookie-expire=1h")
 		}
+		flags = append(flags, s.healthFlags()...)
 		for _, u := range s.Ups {
 			switch u.Kind {
 			case "http":
@@ -292,7 +308,7 @@ func (s *c17Set) build(w *vfWorld) error {
 				fmt.Fprintf(&y, "    uri: file://%s\n", u.Dir)
 			}
 		}
-		s.Proxy, err = w.NewProxyRaw(w.AlphaYAML(y.String(), s.ExtraYML), w.AlphaBaseFlags())
+		s.Proxy, err = w.NewProxyRaw(w.AlphaYAML(y.String(), s.ExtraYML), append(append([]string{}, w.AlphaBaseFlags()...), s.healthFlags()...))
 	}
 	if err != nil {
 		return fmt.Errorf("set %s: %w", s.Name, err)
